@@ -11,6 +11,7 @@ PARTIAL in one respect, stated once: mutation through the public attributes by U
 LIBRARY calls create.  The model is tied to the code by alias-graph correspondence (sampled).
 -/
 import TonVerif.Proofs.Heap
+import TonVerif.Proofs.SrcHeap
 
 namespace TonVerif.Properties.C08
 open TonVerif TonVerif.Model TonVerif.Model.Heap TonVerif.Proofs.Heap
@@ -171,6 +172,105 @@ example : ¬ Sep bad := by
   intro h
   exact h.sepB 3 2 (by decide +kernel) (by decide +kernel) (by decide) (by decide +kernel) (by decide +kernel) (by decide +kernel)
 example : (step H0 bad (.dropBits 3 2 false)).1.bitsOf 2 = [true, true, false] ∧ bad.bitsOf 2 = [true, false, true, true, false] := by
+  decide +kernel
+
+/-! ## The copy / isolation glue REGENERATED from the Python source
+
+`Generated/HeapSrc.lean` is rewritten on every run of the check from `Cell.begin_parse / to_slice / copy / to_builder` (boc/cell.py),
+`Slice.copy / to_cell / to_builder / from_cell` (boc/slice.py) and `Builder.end_cell / to_cell / to_slice` (boc/builder.py) by the
+alias-graph translator harness/translate/pyheap.py: each method is a transformer of the heap that says, for the new object, which
+containers are COPIES (`x.copy()`, `x[k:]`) and which are the receiver's own (a bare `self.bits`).  `Proofs/SrcHeap.lean` proves each
+equal to the model's `derive` transition on every well-formed heap, so the theorems of this file hold of the regenerated steps; a
+`.copy()` dropped in the source makes the regenerated transformer alias a container and the equation unprovable. -/
+
+open TonVerif.Generated.HeapSrc TonVerif.Proofs.SrcHeap in
+/-- the regenerated methods applicable to object `self` of heap `σ`, as transitions (`Py.Heap.result`: a raising call leaves the heap
+unchanged), each with the `derive` target the model assigns to it -/
+def srcDerive (H : Bytes → Bytes) (σ : State) (self : Nat) : List (Kind × (State × Out)) :=
+  if σ.has self .cell then
+    [(.slice, Py.Heap.result σ (Cell_begin_parse H σ self)), (.slice, Py.Heap.result σ (Cell_to_slice H σ self)),
+     (.slice, Py.Heap.result σ (Slice_from_cell H σ self)), (.cell, Py.Heap.result σ (Cell_copy H σ self)),
+     (.builder, Py.Heap.result σ (Cell_to_builder H σ self))]
+  else if σ.has self .slice then
+    [(.slice, Py.Heap.result σ (Slice_copy H σ self)), (.cell, Py.Heap.result σ (Slice_to_cell H σ self)),
+     (.builder, Py.Heap.result σ (Slice_to_builder H σ self))]
+  else if σ.has self .builder then
+    [(.cell, Py.Heap.result σ (Builder_end_cell H σ self)), (.cell, Py.Heap.result σ (Builder_to_cell H σ self)),
+     (.slice, Py.Heap.result σ (Builder_to_slice H σ self))]
+  else []
+
+open TonVerif.Generated.HeapSrc TonVerif.Proofs.SrcHeap in
+/-- REGENERATED STEP = MODEL STEP.  On every well-formed heap (`WF`: in particular every reachable one) and for every live cell,
+slice or builder `self`, each of the eleven regenerated methods is exactly the transition `derive self dst` of `Model/Heap.lean`:
+same decision to raise (exotic source of `to_builder`, more than 4 references / 1023 bits, the `Cell` constructor refusing the
+content), same new object (type, `ref_offset = 0`, cached hashes of a new cell), a NEW bit container holding the receiver's
+remaining bits and a NEW list holding its remaining references, nothing else touched. -/
+theorem c08_src_step (H : Bytes → Bytes) (σ : State) (wf : WF σ) (self : Nat) :
+    ∀ r ∈ srcDerive H σ self, r.2 = step H σ (.derive self r.1) := by
+  intro r hr
+  unfold srcDerive at hr
+  by_cases hc : σ.has self .cell = true
+  · simp only [hc, if_true, List.mem_cons, List.not_mem_nil, or_false] at hr
+    rcases hr with rfl | rfl | rfl | rfl | rfl
+    · exact Cell_begin_parse_eq H σ wf self hc
+    · exact Cell_to_slice_eq H σ wf self hc
+    · exact Slice_from_cell_eq H σ wf self hc
+    · exact Cell_copy_eq H σ wf self hc
+    · exact Cell_to_builder_eq H σ wf self hc
+  · by_cases hs : σ.has self .slice = true
+    · simp only [hc, hs, if_true, if_false, Bool.false_eq_true, List.mem_cons, List.not_mem_nil, or_false] at hr
+      rcases hr with rfl | rfl | rfl
+      · exact Slice_copy_eq H σ self hs
+      · exact Slice_to_cell_eq H σ self hs
+      · exact Slice_to_builder_eq H σ wf self hs
+    · by_cases hb : σ.has self .builder = true
+      · simp only [hc, hs, hb, if_true, if_false, Bool.false_eq_true, List.mem_cons, List.not_mem_nil, or_false] at hr
+        rcases hr with rfl | rfl | rfl
+        · exact Builder_end_cell_eq H σ wf self hb
+        · exact Builder_to_cell_eq H σ wf self hb
+        · exact Builder_to_slice_eq H σ wf self hb
+      · simp [hc, hs, hb] at hr
+
+/-- SEPARATION and IMMUTABILITY hold of the regenerated steps: from any heap satisfying the invariant (so: after every history),
+every regenerated method call again yields a heap satisfying `Sep`, `WF`, `Coh` - the new slice / builder shares no container with
+anything - and leaves every existing Cell exactly as it was (record, cached hashes, content of both containers). -/
+theorem c08_src_separation (H : Bytes → Bytes) (σ : State) (h : Inv H σ) (self : Nat) :
+    ∀ r ∈ srcDerive H σ self, Inv H r.2.1 ∧
+      ∀ i, i < σ.nObj → (σ.obj i).tag = .cell → cellObs r.2.1 i = cellObs σ i := by
+  intro r hr
+  rw [c08_src_step H σ h.wf self r hr]
+  exact ⟨inv_step h _, fun i hi ht => cell_frame h (frame_step H σ _) i hi ht⟩
+
+/-- the same along histories: run any history, apply any regenerated method to any object, run any further history - the invariant
+holds at the end and a cell of the first heap is unchanged. -/
+theorem c08_src_immutable (H : Bytes → Bytes) (pre post : List Op) (self i : Nat)
+    (hi : i < (run H init pre).nObj) (ht : ((run H init pre).obj i).tag = .cell) :
+    ∀ r ∈ srcDerive H (run H init pre) self,
+      Inv H (run H r.2.1 post) ∧ cellObs (run H r.2.1 post) i = cellObs (run H init pre) i := by
+  intro r hr
+  have h : Inv H (run H init pre) := inv_run (inv_init H) pre
+  obtain ⟨h1, h2⟩ := c08_src_separation H _ h self r hr
+  have e := h2 i hi ht
+  have f := frame_step H (run H init pre) (.derive self r.1)
+  have hi' : i < r.2.1.nObj := by
+    rw [c08_src_step H _ h.wf self r hr]; exact Nat.lt_of_lt_of_le hi f.nObj
+  have ht' : (r.2.1.obj i).tag = .cell := by
+    have := congrArg Prod.fst e; simp only [cellObs] at this; rw [this]; exact ht
+  exact ⟨inv_run h1 post, (cell_frame_run h1 post i hi' ht').1.trans e⟩
+
+open TonVerif.Generated.HeapSrc in
+/-- non-vacuity: on the heap after `demo` (two cells sharing the caller's array, a consumed slice, a grown builder) the regenerated
+`begin_parse` of cell 2 returns a new slice whose two containers are new (ids = the allocation counters) and hold the cell's bits and
+references; the regenerated `to_builder` of the exotic-free slice 7 succeeds; `srcDerive` is non-empty for a cell, a slice, a builder. -/
+example :
+    (Cell_begin_parse H0 (run H0 init demo) 2).map (fun r => r.2) = some (run H0 init demo).nObj ∧
+    (Cell_begin_parse H0 (run H0 init demo) 2).map (fun r => (r.1.obj r.2).bitsId) = some (run H0 init demo).nBit ∧
+    (Cell_begin_parse H0 (run H0 init demo) 2).map (fun r => (r.1.obj r.2).refsId) = some (run H0 init demo).nRef ∧
+    (Cell_begin_parse H0 (run H0 init demo) 2).map (fun r => (r.1.obj r.2).bitsId == ((run H0 init demo).obj 2).bitsId) = some false ∧
+    (Cell_begin_parse H0 (run H0 init demo) 2).map (fun r => r.1.bitsOf r.2) = some ((run H0 init demo).bitsOf 2) ∧
+    (Slice_to_builder H0 (run H0 init demo) 7).isSome = true ∧
+    (srcDerive H0 (run H0 init demo) 2).length = 5 ∧ (srcDerive H0 (run H0 init demo) 7).length = 3 ∧
+    (srcDerive H0 (run H0 init demo) 5).length = 3 := by
   decide +kernel
 
 end TonVerif.Properties.C08
